@@ -815,3 +815,32 @@ package pipeline
 //@ func (*Event).reset
 //@   modifies e.Buf, e.next, e.action, e.stream, e.children, e.kind
 //@   ensures e.kind == EventKindRegular && e.action == 0 && len(e.Buf) == 0 && e.next == nil && e.stream == nil && len(e.children) == 0
+
+// ---------------------------------------------------------------------------
+// C01 / C02 / C04: tryUnblock (the streamer's heartbeat on a blocked stream).
+// Under the stream lock: a time-out event is queued iff the stream has been
+// blocked for the time-out and its queue is empty (first == nil - the queue
+// itself, not the len counter, which time-outs do not count in); queuing never
+// replaces a queued event; the waiting processor is signalled exactly then.
+
+//@ func (*stream).tryUnblock
+//@   option allow-exit yes
+//@   ghost aged bool = false
+//@   ghost empty bool = false
+//@   ghost nsig int = 0
+//@   ensures !held(s.mu)
+//@   ensures s != nil ==> result == (aged && empty) && nsig == ite(result, 1, 0)
+//@   setat "if s.first != nil {" empty := s.first == nil
+//@   assert at "s.first = timeoutEvent" held(s.mu) && empty && s.first == nil
+//@   callee Since(t) (d)
+//@     pure
+//@     set aged := !(d < s.streamer.eventTimeout)
+//@   callee newTimeoutEvent(st) (r)
+//@     pure
+//@     ensures r != nil && fresh(r)
+//@   callee Signal()
+//@     requires held(s.mu) && empty && aged
+//@     pure
+//@     set nsig := nsig + 1
+//@   callee Load() (r)
+//@     pure
